@@ -286,6 +286,13 @@ def main(argv=None):
     for r in list(refuted):
         rp = replays.get((r["scenario"], r["case"], r["name"]))
         reproduced = bool(rp and rp["reproduced"])
+        no_symbolic_inputs = isinstance(r.get("model"), dict) and r["model"].get("__symbolic_inputs__") is False
+        if no_symbolic_inputs and not reproduced and rp is not None and rp.get("native_exception") is None:
+            # the failing path has no symbolic input at all, so the native run of the same scenario is decisive: it passed,
+            # hence the failure is an artefact of the engine (undecided), never reported as a violation
+            undecided.append((r["scenario"], r["case"], "obligation %s fails under the engine on a fully concrete path but holds natively (engine artefact)" % r["name"]))
+            refuted.remove(r)
+            continue
         if r["name"].endswith("no_unexpected_exception") and not reproduced:
             # an exception seen only under symbolic execution: the native run on the counter-model is decisive for
             # exceptions, so this is an engine limitation (undecided), never reported as a violation
